@@ -311,8 +311,11 @@ pub fn c14() -> Outcome {
     // all operation sequences of length <= 4 over relax/restore of ids {1, 2, 3, 42}
     let ops: Vec<(bool, u64)> = [true, false].into_iter().flat_map(|r| [1u64, 2, 3, 42].into_iter().map(move |i| (r, i))).collect();
     let mut seqs: Vec<Vec<(bool, u64)>> = vec![vec![]];
-    for _ in 0..4 { let mut nx = vec![]; for s in &seqs { if s.len() == seqs.last().map(|x| x.len()).unwrap_or(0) || true { for o in &ops { let mut t = s.clone(); t.push(*o); nx.push(t); } } } seqs = { let mut all = seqs.clone(); all.extend(nx); all.sort(); all.dedup(); all }; }
-    for s in seqs.iter().filter(|s| s.len() <= 4) {
+    // every operation sequence up to length 4 (quick) / 5 (thorough: 37449 sequences)
+    let maxlen = if budget() >= 5000 { 5 } else { 4 };
+    let mut frontier: Vec<Vec<(bool, u64)>> = vec![vec![]];
+    for _ in 0..maxlen { let mut nx = vec![]; for s in &frontier { for o in &ops { let mut t = s.clone(); t.push(*o); nx.push(t); } } seqs.extend(nx.iter().cloned()); frontier = nx; }
+    for s in seqs.iter() {
         n += 1; d.insert(s.clone());
         if s.len() == 4 && n % 997 == 0 { note(|| format!("(relax?, id) sequence {s:?}")); }
         let mut i = base.clone();
